@@ -50,6 +50,8 @@ mod rollup;
 #[cfg(test)]
 pub(crate) mod test_utils;
 pub(crate) mod utils;
+#[cfg(feature = "verif")]
+pub mod verif;
 
 pub use build_info::BUILD_INFO;
 pub use composer::Composer;
